@@ -12,6 +12,7 @@ import Ufw.Tie.Slip
 #print axioms Ufw.Props.C12.emit_le_consume
 #print axioms Ufw.Props.C12.source_error_passthrough
 #print axioms Ufw.Props.C12.sink_error_passthrough
+#print axioms Ufw.Props.C12.encode_over_fragmenting_drivers
 #print axioms Ufw.Tie.Slip.const_model_octets
 #print axioms Ufw.Tie.Slip.const_rfc1055_octets
 #print axioms Ufw.Tie.Slip.const_octets_distinct
